@@ -21,7 +21,7 @@ func init() {
 
 // reviewed exceptions: key -> reason. Keyed by function + ranged expression, never by line.
 var mapRangeReviewed = map[string]string{
-	"codegen/wasm.(*Generator).collectImports | range g.funcs":            "ensureImport writes g.imports[name] (a set keyed by the constant import name); the only order-dependent effect is which 'conflicting signatures' internal error is returned first, and every request for one name uses one constant signature",
+	"codegen/wasm.(*Generator).collectImports | range g.funcs":            "ensureImport writes g.imports[name] (a set keyed by the constant import name); the only order-dependent effect is which internal error ('conflicting signatures', 'missing arg type') is returned first when two functions each trigger one — every request for one import name uses one constant signature and wasmValueType never fails, so neither arises from a program; resolveCallTarget's diagnostics go to the bag, whose emission is sorted",
 	"hir/analysis.(*borrowChecker).releaseExpiredRefs | range scope.refs": "collects the expired reference symbols, then releases each by key (releaseBinding deletes b.bindings[sym] and drops that loan); releases of distinct symbols are independent and emit no diagnostic",
 	"hir/analysis.(*borrowChecker).popScope | range scope.refs":           "releases every loan of the closing scope by key; no diagnostic, independent entries",
 	"colors.ConvertANSIToHTML | range ansiToHTMLColors":                   "sequential strings.ReplaceAll over a constant table; order-independent under the side condition checked by C14.R2b (no key is a substring of another key or of a replacement)",
